@@ -184,6 +184,16 @@ impl InputState {
     pub const fn current(&self) -> &Vec<char> {
         &self.input
     }
+    /// Text, cursor position, history length and history position (verification hook).
+    #[cfg(feature = "verif-hooks")]
+    pub fn verif_state(&self) -> (String, usize, usize, Option<usize>) {
+        (
+            self.input.iter().collect(),
+            self.input_index,
+            self.history.len(),
+            self.history_index,
+        )
+    }
     /// Switch to the next completion.
     fn next_completion(&mut self) {
         match &mut self.curr_completions {
